@@ -883,3 +883,12 @@ def c14_taintpipe(a):
 
 PLANS["C14"]["stages"].insert(2, dict(name="c14-taintpipe", kind="py", func="c14_taintpipe"))
 PLANS["C14"]["rule_prefix"] += "Also the whole pipeline under memcheck with the RNG output marked undefined, per profile: reports are attributed to crate source functions through debug-info lines; tainted branches/addresses are allowed only at is_in_range <- bit_unpack <- expand_mask (range check with a constant outcome), which must be seen on every run. "
+
+
+# ---------------------------------------------------------------------------------------------
+# histories over long-lived key objects (shared stage, DESIGN 3.6): judged per property
+# ---------------------------------------------------------------------------------------------
+for _p in ("C01", "C02", "C03", "C04", "C07", "C09", "C10", "C11"):
+    for _prof in ("release", "checked"):
+        PLANS[_p]["stages"].append(dict(name=f"hist-{_prof}", kind="vh", stage="hist", profile=_prof,
+                                       opts=dict(quick=dict(prop=_p), thorough=dict(prop=_p))))
